@@ -4,30 +4,34 @@ SPEC = dict(
     coq_dir="C05",
     coq_targets=["C05/Proofs.vo", "C05/Sort.vo", "C05/Examples.vo"],
     allowed_axioms=[],
-    level_text=("Unbounded Coq theorems about an executable model of write-fonts' offset packer: for EVERY object map and "
+    level_text=("Unbounded Coq theorems about an executable model of write-fonts' offset packer. (1) Gate theorem: for EVERY object map and "
                 "every layout that lists each object once, is closed under links, puts parents before children and passes the "
-                "overflow gate (has_overflows = false), Graph::serialize succeeds and its output satisfies Resolves — every "
-                "object is a byte-for-byte copy at its prefix-sum position, every offset field read with its width and added to "
-                "the parent's position lands exactly on the (recursively resolving) target, every written offset equals the exact "
-                "distance and is < 2^(8*width) — and the output length is the sum of the object sizes; pack_objects reports success "
-                "only on a graph on which the gate returned false, and dump_table yields bytes only then, an error otherwise. "
-                "The model (ObjectStore id assignment with content dedup, update_parents, sort_kahn, update_distances, assign_space_0, "
-                "sort_shortest_distance, has_overflows, basic_sort, pack_objects' basic path, serialize incl. every u32/width panic) "
-                "is tied to the code on every run: arbitrary object DAGs are compiled through the public FontWrite/TableWriter/dump_table "
-                "API and the exact output bytes (or PackingFailed) are compared with the model's vm_compute result. Space assignment / "
-                "isolation / duplication (32-bit links after the basic path fails) and GPOS/GSUB splitting/promotion are NOT modelled: "
-                "for those an implementation-only walker re-checks Resolves from the input description on every successful output."),
+                "overflow gate, Graph::serialize succeeds and its output satisfies Resolves (every object a byte-for-byte copy at its "
+                "prefix-sum position; every offset field read with its width and added to the parent's position lands exactly on the "
+                "recursively resolving target; every written offset equals the exact distance and is < 2^(8*width); length = sum of sizes). "
+                "(2) Sorts: whenever sort_kahn / sort_shortest_distance return (no panic) their order is duplicate-free, starts with the root, "
+                "contains everything reachable, has every parent before each child, and node positions are the prefix sums (one generic "
+                "loop invariant; no acyclicity hypothesis); on an acyclic graph all of whose objects are reachable sort_kahn is TOTAL: no panic, "
+                "a permutation of all objects. (3) End-to-end for the basic path: if the root exists, nobody links it, link "
+                "fields are well-formed and adjustments zero (graph_hyps), then pack_objects = success implies serialize succeeds and the root "
+                "Resolves at 0; dump_table yields bytes only then, an error otherwise. The decidable forms layout_okb / graph_hypsb are proved "
+                "sound and evaluated on every successful basic-path correspondence case. The model — ObjectStore id assignment with content "
+                "dedup, update_parents, both sorts, has_overflows, pack_objects, serialize with every u32/width panic, AND (round 2) space "
+                "assignment / isolation / duplication exactly as in /repo d1b6283 — is tied to the code on every run: arbitrary object DAGs are "
+                "compiled through the public FontWrite/TableWriter/dump_table API and the exact output bytes / PackingFailed / panic are compared "
+                "with the model's vm_compute result. No theorem covers the space-assignment path (there: byte-exact correspondence + an "
+                "implementation-only walker re-checking Resolves from the input description); GPOS/GSUB splitting/promotion: C16."),
     level_note=("Trusted: Coq kernel; the hand-written model coq/C05/Model.v (agreement with write-fonts checked on every run, not proved); "
-                "the harness generator and its FontWrite implementation. The hypotheses 'order is a duplicate-free topological listing of all "
-                "objects' and 'node positions = prefix sums' of the gate theorem are proved for the serializer but NOT yet derived from "
-                "sort_kahn/sort_shortest_distance (kahn_order_topological is not proved; the correspondence and the walker check it per case)."),
+                "the harness generator and its FontWrite implementation. Not proved: totality of the sorts (acyclic + reachable => no panic), "
+                "graph_hyps for store-built maps (checked per case by graph_hypsb), anything about duplicate/isolate preserving the unfolding."),
     technique="Coq proof (list/Z reasoning, induction over the layout) over hand-written Gallina model + vm_compute correspondence with write-fonts through the public API + implementation-only Resolves walker",
     modelled=["write-fonts/src/write.rs: TableWriter::{add_table, write_slice, write_offset}, TableData::add_offset, TableData Eq/Hash (content), dump_table",
-              "write-fonts/src/graph.rs: ObjectStore::add, Graph::{from_obj_store, from_objects, update_parents, sort_kahn, update_distances, assign_space_0, sort_shortest_distance, has_overflows, basic_sort, pack_objects (basic path; Failed when no 32-bit link), serialize}, Node::modified_distance, Distance ordering, OffsetLen::max_value"],
-    not_covered=["assign_spaces_hb, find_space_roots_hb, find_connected_nodes_hb, isolate_subgraph_hb, duplicate_subgraph, try_isolating_subgraphs: not modelled (model answers Beyond); covered by the implementation-only walker only",
+              "write-fonts/src/graph.rs: ObjectStore::add, Graph::{from_obj_store, from_objects, update_parents, sort_kahn, update_distances, assign_space_0, sort_shortest_distance, has_overflows, basic_sort, pack_objects, serialize, assign_spaces_hb, find_space_roots_hb, find_subgraph_hb, find_connected_nodes_hb, isolate_subgraph_hb, find_subgraph_map_hb, duplicate_subgraph, find_overflows, try_isolating_subgraphs, find_root_of_space}, Node::modified_distance, Distance ordering, OffsetLen::max_value"],
+    not_covered=["assign_spaces_hb, find_space_roots_hb, find_connected_nodes_hb, isolate_subgraph_hb, duplicate_subgraph, try_isolating_subgraphs: modelled (round 2) and compared byte-for-byte, but no theorem (duplicate_preserves / isolate_preserves not proved); implementation-only walker",
+                 "totality of sort_shortest_distance (update_distances / assign_space_0 / obj_order do not panic): not proved — partial correctness only; sort_kahn is proved total (c05_kahn_order_topological)",
                  "try_splitting_subtables / try_promoting_subtables (GPOS/GSUB lookups): left to C16",
                  "adjust_offsets (name table): pub(crate), not reachable from generated graphs; F-5 witness on the model only (Examples.v c05_adjustment_underflow_refuted)",
-                 "kahn_order_topological / shortest_order_topological: not proved"],
+                 ],
     assumptions=["Rust integer semantics as in coq/Lib/RustInt.v; BinaryHeap pops the maximum; BTreeMap iterates in key order",
                  "objects built through TableWriter have ascending, disjoint, in-bounds link fields of width 2/3/4 (obj_wf) — true by construction of add_offset for widths 2..4"],
 )
